@@ -149,6 +149,8 @@ public:
                         int t = replay[replayPos++];
                         if (t >= 0 && t < n && runnable(t)) pick = t;
                     }
+                    // replay schedule used up: finish the run round-robin (this is not a livelock)
+                    if (pick < 0 && !cand.empty()) pick = cand[taken.size() % cand.size()];
                 } else if (!cand.empty()) {
                     bool stay = last >= 0 && runnable(last) && (int)rng.below(100) >= switchPercent;
                     pick = stay ? last : cand[rng.below(cand.size())];
